@@ -250,7 +250,7 @@ def bounded_model(ob, axioms, recdefs=None, B=3, timeout_ms=8000):
     if recdefs:
         seen = set()
         frontier = list(parts)
-        for _round in range(B + 2):
+        for _round in range(max(B + 2, 12)):
             apps = []
             for p in frontier:
                 _collect_apps(p, set(d.name() for d in recdefs), apps, set())
